@@ -387,11 +387,24 @@ class H2Protocol:
         await self.has_data.set()
 
     async def _create_stream(self, request: h2.events.RequestReceived) -> None:
+        method: Optional[str] = None
+        raw_path: Optional[bytes] = None
         for name, value in request.headers:
             if name == b":method":
-                method = value.decode("ascii").upper()
+                method = value.decode("ascii", "replace").upper()
             elif name == b":path":
                 raw_path = value
+
+        if method is None or raw_path is None or not raw_path.isascii():
+            # Not something that can be served (e.g. a CONNECT without
+            # a path), which is this stream's problem only.
+            self.connection.send_headers(
+                request.stream_id,
+                [(b":status", b"400")] + self.config.response_headers("h2"),
+                end_stream=True,
+            )
+            await self._flush()
+            return
 
         if method == "CONNECT":
             self.streams[request.stream_id] = WSStream(
